@@ -164,6 +164,16 @@ pub struct RunSpec {
     /// the host never delivers requested modules: the run ends "abandoned" at its first NeedImports
     #[serde(default)]
     pub withhold_imports: bool,
+    /// deferred answers use order-linked promises (api::create_order_promise) instead of plain ones
+    #[serde(default)]
+    pub linked_promises: bool,
+    /// host activity between steps (reads of call depth / gc stats / export names, creation and
+    /// dropping of guards and unrelated JSON objects) with probability pm/1000 per step
+    #[serde(default)]
+    pub host_activity_pm: u32,
+    /// internal source modules registered at interpreter creation: specifier -> source
+    #[serde(default)]
+    pub internal_sources: BTreeMap<String, String>,
 }
 
 #[derive(Clone, Debug, Default)]
@@ -190,6 +200,9 @@ pub struct Outcome {
     pub max_call_depth: usize,
     /// gc_stats().live_objects after each host-forced collection at a suspension
     pub live_at_suspend: Vec<u64>,
+    /// first line of the error's display text (what a C host sees), when the run failed
+    pub error_text: Option<String>,
+    pub host_activity: u64,
 }
 
 impl Outcome {
@@ -289,8 +302,16 @@ pub struct Host {
 }
 
 pub fn new_interp(spec_clock_start: i64, random_seed: u64) -> Host {
+    new_interp_with(spec_clock_start, random_seed, &BTreeMap::new())
+}
+
+pub fn new_interp_with(spec_clock_start: i64, random_seed: u64, internal_sources: &BTreeMap<String, String>) -> Host {
+    let mut internal_modules = vec![create_eval_internal_module()];
+    for (k, v) in internal_sources {
+        internal_modules.push(tsrun::InternalModule::source(k.clone(), v.clone()));
+    }
     let config = InterpreterConfig {
-        internal_modules: vec![create_eval_internal_module()],
+        internal_modules,
         ..Default::default()
     };
     let mut interp = Interpreter::with_config(config);
@@ -442,6 +463,7 @@ impl Run {
             }
             Err(e) => {
                 let (k, m) = err_kind_msg(&e);
+                self.out.error_text = Some(e.to_string().lines().next().unwrap_or("").to_string());
                 self.out.traffic.push("err".into());
                 if tsrun::verif::fuel_exhausted() {
                     self.finish("fuel".into());
@@ -557,7 +579,7 @@ impl Run {
                         Err(JsError::type_error(m.clone()))
                     }
                     Answer::DeferValue(v) => {
-                        let p = api::create_promise(&mut h.interp);
+                        let p = if self.spec.linked_promises { api::create_order_promise(&mut h.interp, id) } else { api::create_promise(&mut h.interp) };
                         let rv = RuntimeValue::unguarded(p.value().clone());
                         self.deferred.push(Deferred {
                             promise: p,
@@ -570,7 +592,7 @@ impl Run {
                         Ok(rv)
                     }
                     Answer::DeferReject(m) => {
-                        let p = api::create_promise(&mut h.interp);
+                        let p = if self.spec.linked_promises { api::create_order_promise(&mut h.interp, id) } else { api::create_promise(&mut h.interp) };
                         let rv = RuntimeValue::unguarded(p.value().clone());
                         self.deferred.push(Deferred {
                             promise: p,
@@ -653,6 +675,22 @@ impl Run {
         let cont = matches!(r, Ok(StepResult::Continue));
         self.handle_result(h, r);
         if cont
+            && self.spec.host_activity_pm > 0
+            && (mix(0xac71, self.out.steps) % 1000) < self.spec.host_activity_pm as u64
+        {
+            // what a monitoring host does between two steps; none of it may be visible to the program
+            self.out.host_activity += 1;
+            let _ = h.interp.call_depth();
+            let _ = h.interp.gc_stats();
+            let _ = h.interp.get_export_names();
+            let g = api::create_guard(&h.interp);
+            if let Ok(v) = api::create_from_json(&mut h.interp, &g, &serde_json::json!({"host": [1, 2, {"x": "y"}], "n": self.out.steps})) {
+                let _ = api::keys(&v);
+                let _ = api::get_property(&v, "host").map(|a| api::len(&a));
+            }
+            drop(g);
+        }
+        if cont
             && self.spec.gc.force_step_pm > 0
             && (mix(self.spec.gc.force_seed, self.out.steps) % 1000) < self.spec.gc.force_step_pm as u64
         {
@@ -692,7 +730,7 @@ pub fn run_solo_hint(spec: &RunSpec, total_allocs_hint: u64) -> Outcome {
     tsrun::verif::reset();
     tsrun::verif::set_fuel(Some(spec.fuel));
     install_gc(&spec.gc, total_allocs_hint);
-    let mut h = new_interp(spec.clock_start, spec.random_seed);
+    let mut h = new_interp_with(spec.clock_start, spec.random_seed, &spec.internal_sources);
     let mut run = Run::new(spec.clone());
     while run.advance(&mut h) {}
     run.finalize(&mut h);
